@@ -611,6 +611,24 @@ template <class TA, class TB> static int cmp_eval(int shape, int op, Opd l, Opd 
   const TA va = mk<TA>(l.v);
   return apply_cmp(op, va, cb) ? 1 : 0;
 }
+// Mixed element types whose values are NOT representable in each other: left operand int, right
+// operand double with value v + 0.5 ("the values decide": 1 < 1.5 < 2).
+static int cmp_eval_half(int shape, int op, Opd l, Opd r) {
+  if ((shape == 1 && !r.has) || (shape == 2 && !l.has)) return -1;
+  nop::Optional<int> oa; nop::Optional<double> ob;
+  if (l.has) oa = l.v;
+  if (r.has) ob = r.v + 0.5;
+  const nop::Optional<int>& ca = oa; const nop::Optional<double>& cb = ob;
+  if (shape == 0) return apply_cmp(op, ca, cb) ? 1 : 0;
+  if (shape == 1) { const double vb = r.v + 0.5; return apply_cmp(op, ca, vb) ? 1 : 0; }
+  const int va = l.v;
+  return apply_cmp(op, va, cb) ? 1 : 0;
+}
+static bool ref_cmp_half(int op, Opd l, Opd r) {
+  const double lv = l.v, rv = r.v + 0.5;
+  const int c = l.has != r.has ? (l.has ? 1 : -1) : (!l.has ? 0 : (lv < rv ? -1 : (lv > rv ? 1 : 0)));
+  switch (op) { case 0: return c == 0; case 1: return c != 0; case 2: return c < 0; case 3: return c > 0; case 4: return c <= 0; default: return c >= 0; }
+}
 static std::string opd_text(Opd o) { return o.has ? std::to_string(o.v) : "e"; }
 static std::string cmp_case_text(const char* type, int shape, int op, Opd l, Opd r) {
   return std::string("prop=C13 cmp=") + type + " " + kShape[shape] + " " + kCmpOp[op] + " " + opd_text(l) + " " + opd_text(r);
@@ -622,10 +640,11 @@ static std::string cmp_check(const std::string& type, int shape, int op, Opd l, 
   if (type == "int") got = cmp_eval<int, int>(shape, op, l, r);
   else if (type == "tracked") got = cmp_eval<T1, T1>(shape, op, l, r);
   else if (type == "int-long") got = cmp_eval<int, long>(shape, op, l, r);
+  else if (type == "int-half") got = cmp_eval_half(shape, op, l, r);
   else return "skip";
   if (got < 0) return "skip";
   std::string m;
-  const bool want = ref_cmp(op, l, r);
+  const bool want = type == "int-half" ? ref_cmp_half(op, l, r) : ref_cmp(op, l, r);
   if ((got != 0) != want)
     m = std::string("wrong-comparison: ") + (shape == 2 ? "value " : "Optional ") + opd_text(l) + " " + kCmpOp[op] + (shape == 1 ? " value " : " Optional ") + opd_text(r) +
         " gave " + (got ? "true" : "false") + " for element type " + type + ", the order 'empty < every value' gives " + (want ? "true" : "false");
@@ -787,7 +806,7 @@ int main(int argc, char** argv) {
 
   // ---- PART B ----
   if (a.shard == 0) {
-    for (const char* type : {"int", "tracked", "int-long"}) {
+    for (const char* type : {"int", "tracked", "int-long", "int-half"}) {
       long cnt = 0;
       for (int shape = 0; shape < 3; shape++)
         for (int op = 0; op < 6; op++)
